@@ -564,6 +564,12 @@ func addC15Case(run *Run, o OptSet, label string, a, b *Val, hist []int) string 
 				// what d ADDS is compared)
 				if addsOf(d) != adds0 && verdict == "ok" {
 					verdict = "fail patching the document that Patch returned changed the values the applied diff adds"
+					if !o.Has("K") && strings.Contains(dw0, " SK") {
+						// without SetKeys a set member is addressed by the WHOLE member object, and a hunk below such a path
+						// element exists only when two members share a hash code without being equal (KF-C04-alias: "" / []);
+						// that path object IS the member map of a, which Patch updates in place
+						verdict = "kf KF-C04-alias a set member addressed by its whole object (reachable only through a hash alias): the path object is the member map Patch updates in place, so applying the diff rewrites its own path"
+					}
 				}
 				if jd.VerifEncodeNode(bn) != bw && verdict == "ok" {
 					verdict = "fail patching the document that Patch returned changed document b"
